@@ -374,6 +374,22 @@ Definition heartbeat (P : params) (sc : list (peer * Z)) (s : rstate)
       end
   end.
 
+(* getFanoutPeersForPublishing: publishing to a topic the node has not joined uses (and keeps alive) the fanout set,
+   which is picked when empty among the non-direct topic peers at or above the publish threshold; [chosen] observed *)
+Definition fanout_pub (P : params) (sc : list (peer * Z)) (s : rstate) (t : topic) (chosen : list peer) : option (rstate * list peer) :=
+  let cur := aget_l t (fanout s) in
+  match cur with
+  | _ :: _ => match chosen with
+              | [] => Some (set_fanout s (fanout s) (aset t (now s) (lastpub s)), cur)
+              | _ => None end
+  | [] =>
+      let cands := gs_peers s t (fun p => negb (memb p (direct s)) && (pPublishThr P <=? score_of sc p)) in
+      if pick_ok chosen cands (pD P) then
+        let f' := match chosen with [] => fanout s | _ => aset t chosen (fanout s) end in
+        Some (set_fanout s f' (aset t (now s) (lastpub s)), chosen)
+      else None
+  end.
+
 (* ---- operations of the event loop ---- *)
 Inductive rop :=
 | OAddPeer (p : peer) (i : pinfo) | ORemovePeer (p : peer)
@@ -384,7 +400,8 @@ Inductive rop :=
 | ORecvGraft (p : peer) (ts : list topic)
 | ORecvPrune (p : peer) (prs : list (topic * option Z))
 | OHeartbeat (obs : list (topic * list hev)) (fobs : list (topic * list peer))
-| OAdvance (d : Z).
+| OAdvance (d : Z)
+| OFanoutPub (t : topic) (chosen : list peer).   (* a publication to a topic that is not joined (fanout selection / refresh only) *)
 
 Definition step (P : params) (sc : list (peer * Z)) (s : rstate) (o : rop) : option (rstate * list ctl * nat) :=
   match o with
@@ -402,6 +419,11 @@ Definition step (P : params) (sc : list (peer * Z)) (s : rstate) (o : rop) : opt
   | ORecvPrune p prs => Some (fold_left (fun st e => handle_prune1 P st p (fst e) (snd e)) prs s, [], 0%nat)
   | OHeartbeat obs fobs => match heartbeat P sc s obs fobs with Some (s', c) => Some (s', c, 0%nat) | None => None end
   | OAdvance d => if d <? 0 then None else Some (set_time s (ticks s) (now s + d), [], 0%nat)
+  | OFanoutPub t chosen =>
+      match aget t (mesh s) with
+      | Some _ => None
+      | None => match fanout_pub P sc s t chosen with Some (s', _) => Some (s', [], 0%nat) | None => None end
+      end
   end.
 
 (* a history: each operation with the score table in force when it runs *)
